@@ -115,6 +115,7 @@ Lemma ls_S : forall f e w, ls g (S f) e w =
   | ASeq a b => let r1 := ls g f a w in let r2 := lbind (fst r1) (ls g f b) in (fst r2, snd r1 || snd r2)
   | AAlt a b => lunion (ls g f a w) (ls g f b w)
   | AStar a => lstar g f a [w]
+  | ALook p => if p w then ([w], false) else ([], false)
   end.
 Proof. reflexivity. Qed.
 
@@ -128,13 +129,13 @@ Proof. reflexivity. Qed.
 
 (* ---------------- soundness ---------------- *)
 Lemma sound_both : forall f,
-  (forall e w r, In r (fst (ls g f e w)) -> exists u, w = u ++ r /\ Der g e u) /\
-  (forall a F r, In r (fst (lstar g f a F)) -> exists x u, In x F /\ x = u ++ r /\ Der g (AStar a) u).
+  (forall e w r, In r (fst (ls g f e w)) -> exists u, w = u ++ r /\ Der g e u r) /\
+  (forall a F r, In r (fst (lstar g f a F)) -> exists x u, In x F /\ x = u ++ r /\ Der g (AStar a) u r).
 Proof.
   induction f as [|f [IH1 IH2]].
   - split; cbn; tauto.
   - split.
-    + intros e w r H. rewrite ls_S in H. destruct e as [|lo hi|n|a b|a b|a].
+    + intros e w r H. rewrite ls_S in H. destruct e as [|lo hi|n|a b|a b|a|p].
       * cbn in H. destruct H as [<-|[]]. exists []. split; [reflexivity | constructor].
       * destruct w as [|c w']; [cbn in H; tauto|].
         destruct ((lo <=? c) && (c <=? hi)) eqn:E; cbn in H; [|tauto].
@@ -148,6 +149,7 @@ Proof.
       * apply lunion_In in H. destruct H as [H|H]; apply IH1 in H; destruct H as [u [-> D]]; exists u; split; auto.
         apply DAltL; assumption. apply DAltR; assumption.
       * apply IH2 in H. destruct H as [x [u [[<-|[]] [-> D]]]]. exists u. split; auto.
+      * destruct (p w) eqn:E; cbn in H; [|tauto]. destruct H as [<-|[]]. exists []. split; [reflexivity | constructor; exact E].
     + intros a F r H. rewrite lstar_S in H. destruct F as [|x0 F0]; [cbn in H; tauto|].
       set (F := x0 :: F0) in *. cbn [fst] in H. apply union_In in H. destruct H as [H|H].
       * exists r, []. split; [exact H | split; [reflexivity | constructor]].
@@ -158,7 +160,7 @@ Proof.
         constructor; assumption.
 Qed.
 
-Theorem ls_sound : forall f e w r, In r (fst (ls g f e w)) -> exists u, w = u ++ r /\ Der g e u.
+Theorem ls_sound : forall f e w r, In r (fst (ls g f e w)) -> exists u, w = u ++ r /\ Der g e u r.
 Proof. intros f. apply (sound_both f). Qed.
 
 (* ---------------- stability: once the fuel did not run out, more fuel changes nothing ---------------- *)
@@ -170,7 +172,7 @@ Proof.
   - split; cbn; discriminate.
   - split.
     + intros e w H. rewrite (ls_S (S f)). rewrite ls_S in H. rewrite (ls_S f).
-      destruct e as [|lo hi|n|a b|a b|a]; try reflexivity.
+      destruct e as [|lo hi|n|a b|a b|a|p]; try reflexivity.
       * apply lalts_ext. intros e He. apply IH1. exact (proj1 (lalts_flag _ _ _) H e He).
       * cbn [snd] in H. apply orb_false_iff in H. destruct H as [Ha Hb].
         cbv zeta. rewrite (IH1 a w Ha).
@@ -195,61 +197,64 @@ Proof.
 Qed.
 
 (* ---------------- completeness, first with "enough fuel" ---------------- *)
-Lemma complete_ex : forall e u, Der g e u ->
-  (exists f0, forall f, (f0 <= f)%nat -> forall rest, In rest (fst (ls g f e (u ++ rest)))) /\
-  (forall a, e = AStar a -> exists f0, forall f, (f0 <= f)%nat -> forall rest F,
-      In (u ++ rest) F -> In rest (fst (lstar g f a F))).
+Lemma complete_ex : forall e u r, Der g e u r ->
+  (exists f0, forall f, (f0 <= f)%nat -> In r (fst (ls g f e (u ++ r)))) /\
+  (forall a, e = AStar a -> exists f0, forall f, (f0 <= f)%nat -> forall F,
+      In (u ++ r) F -> In r (fst (lstar g f a F))).
 Proof.
-  assert (star_first : forall a u,
-    (exists f0, forall f, (f0 <= f)%nat -> forall rest F, In (u ++ rest) F -> In rest (fst (lstar g f a F))) ->
-    exists f0, forall f, (f0 <= f)%nat -> forall rest, In rest (fst (ls g f (AStar a) (u ++ rest)))).
-  { intros a u [f0 H]. exists (S f0). intros f Hf rest. destruct f as [|f]; [lia|].
+  assert (star_first : forall a u r,
+    (exists f0, forall f, (f0 <= f)%nat -> forall F, In (u ++ r) F -> In r (fst (lstar g f a F))) ->
+    exists f0, forall f, (f0 <= f)%nat -> In r (fst (ls g f (AStar a) (u ++ r)))).
+  { intros a u r [f0 H]. exists (S f0). intros f Hf. destruct f as [|f]; [lia|].
     rewrite ls_S. apply H; [lia | left; reflexivity]. }
-  induction 1 as [|lo hi c H1 H2|n e w Hin D IH|a b u v Da IHa Db IHb|a b u D IH|a b u D IH|a|a u v Da IHa Ds IHs].
-  - split; [|discriminate]. exists 1%nat. intros f Hf rest. destruct f as [|f]; [lia|]. rewrite ls_S. left. reflexivity.
-  - split; [|discriminate]. exists 1%nat. intros f Hf rest. destruct f as [|f]; [lia|]. rewrite ls_S. cbn [app].
+  induction 1 as [r|lo hi c r H1 H2|n e w r Hin D IH|a b u v r Da IHa Db IHb|a b u r D IH|a b u r D IH|a r
+                  |a u v r Da IHa Ds IHs|p r Hp].
+  - split; [|discriminate]. exists 1%nat. intros f Hf. destruct f as [|f]; [lia|]. rewrite ls_S. left. reflexivity.
+  - split; [|discriminate]. exists 1%nat. intros f Hf. destruct f as [|f]; [lia|]. rewrite ls_S. cbn [app].
     apply N.leb_le in H1. apply N.leb_le in H2. rewrite H1, H2. left. reflexivity.
-  - split; [|discriminate]. destruct IH as [[f0 IH] _]. exists (S f0). intros f Hf rest.
+  - split; [|discriminate]. destruct IH as [[f0 IH] _]. exists (S f0). intros f Hf.
     destruct f as [|f]; [lia|]. rewrite ls_S. apply lalts_In. exists e. split; [exact Hin | apply IH; lia].
   - split; [|discriminate]. destruct IHa as [[fa IHa] _]. destruct IHb as [[fb IHb] _].
-    exists (S (Nat.max fa fb)). intros f Hf rest. destruct f as [|f]; [lia|]. rewrite ls_S. cbn [fst].
-    apply lbind_In. exists (v ++ rest). split.
+    exists (S (Nat.max fa fb)). intros f Hf. destruct f as [|f]; [lia|]. rewrite ls_S. cbn [fst].
+    apply lbind_In. exists (v ++ r). split.
     + rewrite <- app_assoc. apply IHa. lia.
     + apply IHb. lia.
-  - split; [|discriminate]. destruct IH as [[f0 IH] _]. exists (S f0). intros f Hf rest.
+  - split; [|discriminate]. destruct IH as [[f0 IH] _]. exists (S f0). intros f Hf.
     destruct f as [|f]; [lia|]. rewrite ls_S. apply lunion_In. left. apply IH. lia.
-  - split; [|discriminate]. destruct IH as [[f0 IH] _]. exists (S f0). intros f Hf rest.
+  - split; [|discriminate]. destruct IH as [[f0 IH] _]. exists (S f0). intros f Hf.
     destruct f as [|f]; [lia|]. rewrite ls_S. apply lunion_In. right. apply IH. lia.
-  - assert (second : exists f0, forall f, (f0 <= f)%nat -> forall rest F,
-               In ([] ++ rest) F -> In rest (fst (lstar g f a F))).
-    { exists 1%nat. intros f Hf rest F Hin. destruct f as [|f]; [lia|]. rewrite lstar_S.
+  - assert (second : exists f0, forall f, (f0 <= f)%nat -> forall F,
+               In ([] ++ r) F -> In r (fst (lstar g f a F))).
+    { exists 1%nat. intros f Hf F Hin. destruct f as [|f]; [lia|]. rewrite lstar_S.
       destruct F as [|x0 F0]; [destruct Hin|]. cbn [fst]. apply union_In. left. exact Hin. }
     split; [apply star_first; exact second|]. intros a' E. inversion E; subst a'. exact second.
-  - assert (second : exists f0, forall f, (f0 <= f)%nat -> forall rest F,
-               In ((u ++ v) ++ rest) F -> In rest (fst (lstar g f a F))).
+  - assert (second : exists f0, forall f, (f0 <= f)%nat -> forall F,
+               In ((u ++ v) ++ r) F -> In r (fst (lstar g f a F))).
     { destruct IHa as [[fa IHa] _]. destruct IHs as [_ IHs]. destruct (IHs a eq_refl) as [fs IHs'].
-      exists (S (Nat.max fa fs)). intros f Hf rest F Hin.
+      exists (S (Nat.max fa fs)). intros f Hf F Hin.
       destruct u as [|c u'].
       - cbn [app] in Hin. apply IHs'; [lia | exact Hin].
       - destruct f as [|f]; [lia|]. rewrite lstar_S. destruct F as [|x0 F0]; [destruct Hin|].
         set (F := x0 :: F0) in *. cbn [fst]. apply union_In. right.
-        apply IHs'; [lia|]. apply lbind_In. exists (((c :: u') ++ v) ++ rest). split; [exact Hin|].
+        apply IHs'; [lia|]. apply lbind_In. exists (((c :: u') ++ v) ++ r). split; [exact Hin|].
         cbn [fst]. apply filter_In. split.
         + rewrite <- app_assoc. apply IHa. lia.
         + unfold shorter. apply Nat.ltb_lt. rewrite <- app_assoc. cbn [app length]. rewrite !app_length. lia. }
     split; [apply star_first; exact second|]. intros a' E. inversion E; subst a'. exact second.
+  - split; [|discriminate]. exists 1%nat. intros f Hf. destruct f as [|f]; [lia|]. rewrite ls_S. cbn [app].
+    rewrite Hp. left. reflexivity.
 Qed.
 
 Theorem ls_complete : forall f e w u r,
-  snd (ls g f e w) = false -> Der g e u -> w = u ++ r -> In r (fst (ls g f e w)).
+  snd (ls g f e w) = false -> Der g e u r -> w = u ++ r -> In r (fst (ls g f e w)).
 Proof.
-  intros f e w u r Hflag D ->. destruct (complete_ex e u D) as [[f0 H] _].
+  intros f e w u r Hflag D ->. destruct (complete_ex e u r D) as [[f0 H] _].
   rewrite <- (ls_stable f (Nat.max f f0) e (u ++ r) Hflag (Nat.le_max_l _ _)).
   apply H. apply Nat.le_max_r.
 Qed.
 
 (* the recogniser decides derivability whenever it answers *)
-Theorem recognise_correct : forall s w b, recognise g s w = Some b -> (b = true <-> Der g (ARef s) w).
+Theorem recognise_correct : forall s w b, recognise g s w = Some b -> (b = true <-> Der g (ARef s) w []).
 Proof.
   intros s w b. unfold recognise. set (r := ls g (ls_fuel w) (ARef s) w).
   destruct (snd r) eqn:Hflag; [discriminate|]. intros E. inversion E; subst b. clear E.
